@@ -211,8 +211,10 @@ class CaseCtx:
     def _layout(self, arr):
         if not (self.relayout and isinstance(arr, np.ndarray) and arr.ndim >= 2 and arr.size > 1 and arr.dtype != object):
             return arr
-        self._lay = getattr(self, "_lay", 0) + 1
-        mode = (self._lay + int(arr.size)) % 3
+        # the layout is a function of the values (first 4 kB): the same array passed twice gets the same layout, so
+        # bit-level reproducibility checks are not disturbed by summation-order differences between layouts
+        import zlib
+        mode = (zlib.crc32(np.ascontiguousarray(arr).tobytes()[:4096]) + int(arr.size)) % 3
         if mode == 1:
             self.cells.add("layout=F")
             return np.asfortranarray(arr)
